@@ -84,9 +84,9 @@ func realExit(in ssa.Instruction) bool {
 // ---- selects --------------------------------------------------------------------------------
 
 type selCase struct {
-	Idx   int // index into Select.States; -1 = default
-	State *ssa.SelectState
-	Edge  ifEdge // edge entering the case body
+	Idx     int // index into Select.States; -1 = default
+	State   *ssa.SelectState
+	Edge    ifEdge // edge entering the case body
 	HasEdge bool
 }
 
